@@ -350,6 +350,36 @@ def count_sweep(v, ex, s, tier):
                    nmax, ",".join(map(str, locks))), n_exec, exhaustive=True, pairs=len(jobs))
 
 
+def recovery_sweep(v, ex, s, tier):
+    """What a killed / failed edit run leaves behind (scratch files in TMPDIR, Breadlog.lock.tmp) must not stop the NEXT run from
+    recording its IDs: the follow-up run happens in the very same directories and is compared with the same run in a clean world."""
+    import re as _re
+    idre = _re.compile(rb"\[ref: ([0-9]{1,10})\]")
+
+    def max_id(src):
+        return max([int(m) for c in src.values() for m in idre.findall(c)] + [0])
+    starts = [((("a.rs", ((1, None), (2, None))), ("b.rs", ((3, None),))), 1),
+              ((("a.rs", ((1, 1), (2, None))), ("b.rs", ((3, 2), (4, None)))), 3)]
+    if tier == "thorough":
+        starts.append(((("a.rs", ((1, None),)), ("b.rs", ((2, None),)), ("c.rs", ((3, None), (4, None)))), None))
+    n = 0
+
+    def oracle(sc, base, x):
+        prob = oracles.followup_lock_problem(x, max_id)
+        s.binary_runs += 3
+        if prob:
+            fo = x.follow
+            v.violation("%s:after-%s" % (prob, coarse_cause(describe(x)) if x.plan else "fault-free"),
+                        {"first_run": "edit!" + describe(x) if x.plan else "edit", "leftovers": fo["leftovers"], "then": "fault-free edit run in the same directories",
+                         "lock_after_recovery": fo["p_lock"], "max_id_in_tree": max_id(fo["p_src"]), "clean_world_lock": fo["q_lock"]})
+    for tree, lock in starts:
+        sc = scenario(tree, lock)
+        base, nx, capped = ex.explore(sc, {"kill", "fail"}, 1, oracle, opt={"followup": "none"}, op_filter=lambda o, d, x: o.cls == "w")
+        n += nx
+    v.subspace("recovery sweep: edit run killed / failed at every mutating operation, then a fault-free edit run in the same directories "
+               "(leftovers kept); its lock must cover its IDs whenever the clean-world run's lock does", n, exhaustive=True)
+
+
 def run(tier, v):
     ex = fsx.Explorer()
     if tier == "thorough":
@@ -370,6 +400,7 @@ def run(tier, v):
     roots.append(("lock-ahead-of-tree", (t2, x.lock, frozenset({mx}))))
     s.run(roots)
     count_sweep(v, ex, s, tier)
+    recovery_sweep(v, ex, s, tier)
     ex.close()
     v.count(s.binary_runs)
     v.coverage["distinct_nontrivial"] = len(s.seen)
